@@ -10,7 +10,7 @@ class C08(Prop):
     pid = "C08"
     prop_file = "Props/C08.v"
     module = "Props.C08"
-    gen_deps = ["Table", "StreamFn", "AutoFn", "GlueFn", "MacrosFn", "FmtFn"]
+    gen_deps = ["Table", "StripFn", "StreamFn", "AutoFn", "GlueFn", "MacrosFn", "FmtFn"]
     harness = ("h-core", "hcore")
     nontrivial_rule = ("cases: seeded random sequences of write / write_all / write_vectored / write_fmt (fragment-controlled Display) / flush through AutoStream created with each of "
                        "Never, AlwaysAnsi, Always and Auto (with the global choice fixed), over Vec<u8>, files, the deprecated anstream::Buffer and scripted writers behind Box<dyn Write>, Box<dyn Write + Send> and Box<dyn Write + Send + Sync> (short writes and errors); formatted writes include argument-free format strings (`write!(s, 'literal')`) cut inside escape sequences; every Never case "
